@@ -33,7 +33,7 @@ static const std::vector<std::string>& name_pool()
 {
     static const std::vector<std::string> p = { "a",   "ab", "abc", "verbose", "x-y", "out", "o",
                                                 "v",   "n",  "in.put", "q_1", "A",   "no",  "x y",
-                                                "\xc3\xa4nderung" };
+                                                "\xc3\xa4nderung", "dry-run", "dry_run" };
     return p;
 }
 static const std::string letter_pool = "abovxyzn1_.A:\xe4\xf6";
@@ -48,7 +48,10 @@ static const std::vector<std::string>& value_pool()
                                                 "0",     "-1",    "2147483647", "-2147483648",
                                                 "123456789012", "3.25", "-0.125", "1000000",
                                                 "65535", "0.001", "010", "0089", "-0012", "0100",
-                                                "{}",    "%s",    "a{}b",   "{0}" };
+                                                "{}",    "%s",    "a{}b",   "{0}",
+                                                "\"quoted text\"", "\"\"", "\"a;b\"", "'single'",
+                                                "18446744073709551615", "9223372036854775808",
+                                                "9223372036854775807", "-9223372036854775808", "4294967296" };
     return p;
 }
 
@@ -253,6 +256,8 @@ static std::string gen_env_word(vf::Src& src, int kind)
 
 static void gen_env(vf::Src& src, const Case& c, Step& s, int p_set)
 {
+    if (src.coin(10))
+        s.neighbours = 1;
     for (std::size_t i = 0; i < c.e.size(); ++i)
     {
         if (!c.e[i].env_bound)
@@ -987,6 +992,46 @@ static void gen_c14(vf::Src& src, Case& c)
     o.min_entries = 1;
     gen_decl(src, c, o);
     gen_limit(src, c);
+    // C14 compares with a fresh parser of the same declaration, not with the reference parser: the
+    // declaration may therefore be one the other modes keep away from -
+    // a toggle called "no-<X>" next to a toggle X (the spelling --no-X then means both) ...
+    std::string no_pair;
+    if (src.coin(10))
+    {
+        int first = -1, second = -1;
+        for (std::size_t i = 0; i < c.e.size(); ++i)
+            if (c.e[i].kind == TOGGLE)
+                (first < 0 ? first : second) = static_cast<int>(i);
+        if (first >= 0 && second >= 0 && second != first)
+        {
+            std::string n = "no-" + c.e[static_cast<std::size_t>(first)].name;
+            bool used = false;
+            for (auto& e : c.e)
+                used |= e.name == n;
+            if (!used)
+            {
+                c.e[static_cast<std::size_t>(second)].name = n;
+                no_pair = "--" + n;
+            }
+        }
+    }
+    // ... or two entries sharing a letter (such a parser refuses to parse - every time)
+    if (src.coin(4))
+    {
+        int a = -1;
+        for (std::size_t i = 0; i < c.e.size(); ++i)
+        {
+            if (c.e[i].short_.empty())
+                continue;
+            if (a < 0)
+                a = static_cast<int>(i);
+            else
+            {
+                c.e[i].short_ = c.e[static_cast<std::size_t>(a)].short_;
+                break;
+            }
+        }
+    }
     if (c.e.size() >= 2 && src.coin(25))
         c.late = src.irange(1, static_cast<int>(c.e.size()) - 1);
     int k = src.irange(2, 6);
@@ -1024,7 +1069,15 @@ static void gen_c14(vf::Src& src, Case& c)
         int extra = src.coin(35) ? src.irange(1, 2) : 0;
         for (int j = 0; j < extra; ++j)
             gen_related_tokens(src, c, st.argv, true);
+        if (!no_pair.empty() && src.coin(50))
+            st.argv.insert(st.argv.begin(), no_pair);
         c.steps.push_back(st);
+    }
+    // a later call without any command line at all: parse(0, {NULL})
+    if (src.coin(12))
+    {
+        c.argc0 = true;
+        c.steps[1 + src.index(c.steps.size() - 1)].argv.clear();
     }
 }
 
@@ -1248,6 +1301,11 @@ Case generate(vf::Src& src, const std::string& mode)
             t += src.coin(60) ? "q" : "";
         }
     }
+    // unrelated variables whose names merely start with, or end in, the name of a bound variable
+    if (mode != "c03ex" && mode != "c11ex")
+        for (auto& st : c.steps)
+            if (src.coin(8))
+                st.neighbours = 1;
     // part of the declaration may be made only after a first parse() on the object (c02 and c14
     // decide that themselves)
     if ((mode == "c01" || mode == "c03" || mode == "c04" || mode == "c11" || mode == "c12") &&
@@ -1365,6 +1423,28 @@ static std::string check_c02_typed(const Case& c, const Step& st, vf::Ctx& ctx)
                     else
                         ok = false;
                 }
+                if (ok && !dot && digits >= 16 && digits <= 20)
+                {
+                    // integers up to the ends of the 64-bit ranges, read with the type that holds them
+                    errno = 0;
+                    unsigned long long u = std::strtoull(t.c_str() + i, nullptr, 10);
+                    bool u_ok = errno == 0;
+                    errno = 0;
+                    long long sll = std::strtoll(t.c_str(), nullptr, 10);
+                    bool s_ok = errno == 0;
+                    ctx.tag("c02:typed-64-bit-extremes");
+                    if (i == 0 && u_ok)
+                    {
+                        if (args.as<unsigned long long>(e.name) != u)
+                            return "as<unsigned long long>(" + e.name + ") of " + vf::vis(t) + " gives " +
+                                   std::to_string(args.as<unsigned long long>(e.name));
+                        if (args.as<std::size_t>(e.name) != u || args.as<std::uint64_t>(e.name) != u)
+                            return "as<size_t>/as<uint64_t>(" + e.name + ") of " + vf::vis(t) + " differ from strtoull";
+                    }
+                    if (s_ok && args.as<long long>(e.name) != sll)
+                        return "as<long long>(" + e.name + ") of " + vf::vis(t) + " gives " +
+                               std::to_string(args.as<long long>(e.name));
+                }
                 if (ok && digits >= 1 && digits <= 15 && frac <= 6)
                 {
                     ctx.tag(dot ? "c02:typed-double" : "c02:typed-int");
@@ -1481,7 +1561,8 @@ std::string check(const Case& c0, vf::Ctx& ctx)
                 om::declare_entries(parser.get(), c, early, c.e.size(), c.late % 2 ? &held14 : nullptr);
             if (k >= 1 && (earlier_failed || earlier_set))
                 nontrivial = true;
-            if (shared.cls >= 2)
+            // (a declaration with a shared letter is refused with the developer error, by both)
+            if (shared.cls >= 2 && fresh.cls != shared.cls)
                 return "step " + std::to_string(k) + ": " + om::outcome_str(shared) + " escaped";
             if (!same_outcome(shared, fresh))
                 return "step " + std::to_string(k) + " on the reused parser gives " +
